@@ -14,7 +14,7 @@ RULE = ('cases = generated DSG spec x encoder x every vector of the declared spa
         'activeness listed == decode(create=True) == decode(create=False) == decode of every raw vector corrected to it; '
         'non-trivial = a design with an inactive variable reached both directly and through correction; distinct by '
         'sha1(spec, encoder)')
-BUDGET = {'quick': 150, 'thorough': 3000}
+BUDGET = {'quick': 150, 'thorough': 5000}
 
 
 def strategy(tier):
